@@ -187,3 +187,36 @@ fn c26_unit_and_never() {
     core::mem::forget(r);
     core::mem::forget(r2);
 }
+
+/// Enum values: only values listed in the definition are accepted, whatever the bytes
+/// (definition with the two variants A = 0, B = 1; any input of ≤ 11 bytes).
+#[kani::proof]
+#[kani::unwind(13)]
+fn c26_enum_membership() {
+    use aranya_policy_module::EnumDef;
+    let sd = StructDefs::new();
+    let mut ed = EnumDefs::new();
+    let mut variants = Vec::with_capacity(2);
+    variants.push((crate::ident!("A"), 0i64));
+    variants.push((crate::ident!("B"), 1i64));
+    ed.insert(EnumDef { name: crate::ident!("E"), variants });
+    let buf: [u8; 11] = kani::any();
+    let n: usize = kani::any();
+    kani::assume(n <= 11);
+    let mut c = ctx(&sd, &ed, &buf[..n]);
+    let k = TypeKind::Enum(crate::ident!("E"));
+    let r = c.deserialize_value(&k);
+    match &r {
+        Ok(Value::Enum(_, x)) => assert!(*x == 0 || *x == 1),
+        Ok(_) => panic!("wrong kind"),
+        Err(_) => {}
+    }
+    // the two valid one-byte encodings (zigzag 0 and 1) are accepted
+    if n == 1 && (buf[0] == 0 || buf[0] == 2) {
+        assert!(r.is_ok());
+    }
+    kani::cover!(r.is_ok());
+    core::mem::forget(r);
+    core::mem::forget(k);
+    core::mem::forget(ed);
+}
